@@ -1,2 +1,174 @@
+"""C01 deep rules: extracted rewrite rules / constant folds of Simplifier decided against the
+reference semantics (R3/R4), sort of every result (R8), handler raising on well-typed operands (R3r).
+Shared with C02 (the value of a ground term *is* the fold)."""
+import itertools
+
+from ..common import get_repo, get_ops, get_tables, method_loc
+from .. import simpcheck as sc
+
+SIMPLIFIER = "pysmt.simplifier.Simplifier"
+BVW, BVV = ("BV", "W"), ("BV", "V")
+BOOL, INT, REAL, STRING = ("BOOL",), ("INT",), ("REAL",), ("STRING",)
+
+BV_BIN = ["BV_AND", "BV_OR", "BV_XOR", "BV_ADD", "BV_SUB", "BV_MUL", "BV_UDIV", "BV_UREM", "BV_SDIV", "BV_SREM",
+          "BV_LSHL", "BV_LSHR", "BV_ASHR", "BV_ULT", "BV_ULE", "BV_SLT", "BV_SLE", "BV_COMP"]
+BV_UN = ["BV_NOT", "BV_NEG", "BV_TONATURAL"]
+
+
+def S(name, sort):
+    return ("sym", name, sort)
+
+
+def C(name, sort):
+    return ("const", name, sort)
+
+
+def L(v, sort):
+    return ("lit", v, sort)
+
+
+def A(ctor, *specs):
+    return ("app", ctor, list(specs))
+
+
+def configs(tier="quick"):
+    """(operator, [operand specs]) for every operator in scope."""
+    out = []
+    for op in BV_BIN:
+        out += [(op, [C("c0", BVW), S("x", BVW)]), (op, [S("x", BVW), C("c1", BVW)]),
+                (op, [C("c0", BVW), C("c1", BVW)]), (op, [S("x", BVW), ("same", 0)]),
+                (op, [S("x", BVW), S("y", BVW)])]
+    out += [("BV_CONCAT", [C("c0", BVW), C("c1", BVV)]), ("BV_CONCAT", [C("c0", BVW), S("y", BVV)]),
+            ("BV_CONCAT", [S("x", BVW), C("c1", BVV)]), ("BV_CONCAT", [S("x", BVW), S("y", BVV)])]
+    for op in BV_UN:
+        out += [(op, [C("c0", BVW)]), (op, [S("x", BVW)])]
+    # Boolean connectives
+    p, q, r = S("p", BOOL), S("q", BOOL), S("r", BOOL)
+    T, F = L(True, BOOL), L(False, BOOL)
+    np_ = A("Not", p)
+    bool_menu = [T, F, p, q, np_]
+    for op in ("AND", "OR"):
+        for a, b in itertools.product(bool_menu, repeat=2):
+            out.append((op, [a, b]))
+        out.append((op, [p, ("same", 0)]))
+        out += [(op, [p, q, r]), (op, [p, T, q]), (op, [p, F, q]), (op, [p, q, np_]), (op, [np_, q, p]),
+                (op, [p, A("And", q, r)]), (op, [p, A("Or", q, r)]), (op, [A("And", p, q), A("And", np_, r)]),
+                (op, [A("Or", p, q), A("Or", np_, r)]), (op, [A("Or", q, np_), p]), (op, [A("And", q, np_), p]),
+                (op, [p, A("Or", np_, q)]), (op, [p, A("And", np_, q)]), (op, [T, T]), (op, [F, F, p])]
+    for a in (T, F, p, np_, A("And", p, q)):
+        out.append(("NOT", [a]))
+    for op in ("IMPLIES", "IFF"):
+        for a, b in itertools.product([T, F, p, q], repeat=2):
+            out.append((op, [a, b]))
+        out.append((op, [p, ("same", 0)]))
+        out.append((op, [p, np_]))
+    x, y = S("x", INT), S("y", INT)
+    for c in (T, F, p):
+        out += [("ITE", [c, x, y]), ("ITE", [c, x, ("same", 1)]), ("ITE", [c, q, r]),
+                ("ITE", [c, S("a", BVW), S("b", BVW)]), ("ITE", [c, C("c0", INT), C("c1", INT)])]
+    # arithmetic, both sorts
+    for sort, nm in ((INT, "i"), (REAL, "r")):
+        x, y, z = S("x" + nm, sort), S("y" + nm, sort), S("z" + nm, sort)
+        c0, c1 = C("c0", sort), C("c1", sort)
+        zero, one = L(0, sort), L(1, sort)
+        for op in ("MINUS", "DIV", "LE", "LT", "EQUALS"):
+            out += [(op, [c0, c1]), (op, [c0, x]), (op, [x, c1]), (op, [x, y]), (op, [x, ("same", 0)]),
+                    (op, [x, zero]), (op, [zero, x]), (op, [x, one])]
+        out += [("LE", [zero, A("Minus", x, y)]), ("LE", [A("Minus", x, y), zero]),
+                ("LT", [zero, A("Minus", x, y)]), ("LT", [A("Minus", x, y), zero])]
+        for op in ("PLUS", "TIMES"):
+            out += [(op, [c0, c1]), (op, [c0, x]), (op, [x, c1]), (op, [x, y]), (op, [x, ("same", 0)]),
+                    (op, [x, zero]), (op, [zero, x]), (op, [x, one]), (op, [one, x]), (op, [x, y, c0]),
+                    (op, [c0, x, c1]), (op, [x, A("Plus", y, z)]), (op, [x, A("Minus", y, z)]),
+                    (op, [x, A("Times", y, c0)]), (op, [A("Times", x, c0), A("Times", y, c1)]),
+                    (op, [A("Minus", x, y), A("Minus", y, z)]), (op, [x, A("Times", y, L(-1, sort))]),
+                    (op, [A("Times", x, L(-1, sort)), A("Times", y, L(-2, sort))]), (op, [c0, zero]),
+                    (op, [x, A("Times", y, z)])]
+    out += [("TOREAL", [C("c0", INT)]), ("TOREAL", [S("xi", INT)])]
+    out += [("POW", [C("c0", REAL), L(2, REAL)]), ("POW", [S("xr", REAL), L(2, REAL)]),
+            ("POW", [S("xi", INT), L(2, INT)])]
+    out += [("EQUALS", [C("c0", BVW), C("c1", BVW)]), ("EQUALS", [S("a", BVW), ("same", 0)]),
+            ("EQUALS", [S("a", BVW), C("c1", BVW)]), ("EQUALS", [S("a", BVW), S("b", BVW)])]
+    # strings: literal operands (string folds are computed with Python primitives on literals)
+    strs = ["", "a", "abc", "ab12", "12", "-5", "1_0", " 7"]
+    idxs = [-2, -1, 0, 1, 2, 5]
+    for s in strs:
+        out += [("STR_LENGTH", [L(s, STRING)]), ("STR_TO_INT", [L(s, STRING)])]
+    for i in [-3, 0, 7, 12]:
+        out.append(("INT_TO_STR", [L(i, INT)]))
+    for s in ["abc", ""]:
+        for i in idxs:
+            out.append(("STR_CHARAT", [L(s, STRING), L(i, INT)]))
+            for j in [-1, 0, 1, 2, 9]:
+                out.append(("STR_SUBSTR", [L(s, STRING), L(i, INT), L(j, INT)]))
+    for s, t in [("abcabc", "c"), ("abc", ""), ("abc", "x"), ("", "")]:
+        for i in idxs + [3, 4, 6, 7]:
+            out.append(("STR_INDEXOF", [L(s, STRING), L(t, STRING), L(i, INT)]))
+        out += [("STR_CONTAINS", [L(s, STRING), L(t, STRING)]), ("STR_PREFIXOF", [L(t, STRING), L(s, STRING)]),
+                ("STR_SUFFIXOF", [L(t, STRING), L(s, STRING)]), ("STR_PREFIXOF", [L(s, STRING), L(t, STRING)]),
+                ("STR_REPLACE", [L(s, STRING), L(t, STRING), L("ZZ", STRING)]),
+                ("STR_CONCAT", [L(s, STRING), L(t, STRING)]), ("STR_CONCAT", [L(s, STRING), L(t, STRING), L("k", STRING)])]
+    out += [("STR_LENGTH", [S("s", STRING)]), ("STR_CONCAT", [S("s", STRING), L("a", STRING)]),
+            ("STR_CHARAT", [S("s", STRING), L(0, INT)]), ("STR_TO_INT", [S("s", STRING)]),
+            ("STR_PREFIXOF", [L("a", STRING), L("abc", STRING)]), ("STR_SUFFIXOF", [L("bc", STRING), L("abc", STRING)]),
+            ("STR_SUFFIXOF", [L("abc", STRING), L("bc", STRING)])]
+    return out
+
+
+_CACHE = {}
+
+
+def all_verdicts(tier="quick"):
+    key = tier
+    if key in _CACHE:
+        return _CACHE[key]
+    res = []
+    for op, specs in configs(tier):
+        vs = sc.analyse(SIMPLIFIER, op, specs)
+        res.append((op, specs, vs))
+    _CACHE[key] = res
+    return res
+
+
 def run(ctx):
-    pass
+    repo, ops, ht = get_repo(), get_ops(), get_tables()
+    tab = ht.table(SIMPLIFIER)
+    res = all_verdicts(ctx.tier)
+    ctx.analysed["operand_configurations"] = len(res)
+
+    want3 = ctx.want("R3")
+    want8 = ctx.want("R8")
+    if not (want3 or want8):
+        return
+    rs3 = ctx.rule("R3", "extracted rewrite rules / constant folds are valid (reference semantics, small domains)")
+    rs8 = ctx.rule("R8", "every result has the sort of the simplified formula")
+    rsr = ctx.rule("R3r", "no handler raises on well-typed operands")
+    seen = set()
+    for op, specs, vs in res:
+        h = tab[ops.id(op)]
+        for v in vs:
+            key = "%s.%s|%s|%s" % (h.cls, h.name, v.config, v.cond_str())
+            if key in seen:
+                continue
+            seen.add(key)
+            loc = method_loc(repo, h.cls, h.func)
+            if v.kind == "valid":
+                rs3.ok({"rule": "%s if %s => %s" % (v.config, v.cond_str(), v.result), "checked": v.detail})
+                rs8.ok(None)
+                rsr.ok(None)
+            elif v.kind == "invalid":
+                ctx.finding(rs3, key, "simplification rule of %s is wrong: %s, when %s, is rewritten to %s, but %s"
+                            % (h.name, v.config, v.cond_str(), v.result, v.detail), loc)
+            elif v.kind == "sort":
+                ctx.finding(rs8, key, "%s changes the sort: %s when %s gives %s; %s"
+                            % (h.name, v.config, v.cond_str(), v.result, v.detail), loc)
+            elif v.kind == "raises":
+                ctx.finding(rsr, key, "%s raises on well-typed operands: %s when %s: %s"
+                            % (h.name, v.config, v.cond_str(), v.detail), loc)
+            elif v.kind in ("unsupported", "nosem"):
+                rs3.unrec("%s [%s]: %s" % (v.config, v.cond_str()[:60], str(v.detail)[:90]))
+            # vacuous paths are not obligations
+    rs3.exhaustive = False
+    rs3.notes.append("each rule is decided for all bit-vector values at widths 1..4 (fewer for >2 variables), "
+                     "Int in {-3,-1,0,1,2,7}, Real in {-2,-1/2,0,1,3/2}, all Boolean valuations")
+    ctx.floor(rs3, 400)
